@@ -18,7 +18,9 @@ PathOps == {Tr(U(3, -2)), Sc(Mag(2, 1), U(1, 1)), Sc(Mag(1, 2), U(0, 0)), Sc(Mag
             Ro(Rot90, U(1, 0)), Ro(Rot345, U(0, 0)), Ro(Rot180, U(1, 1)),
             Xf(Mag(2, 1), TRUE, Rot90, U(1, -1)), Xf(Mag(1, 2), FALSE, Rot345, U(0, 0)),
             Xf(Mag(-1, 1), FALSE, Rot0, U(0, 0)), Xf(Mag(1, 1), TRUE, Rot0, U(0, 0)),
-            Xf(Mag(1, 1), FALSE, Rot270, U(2, 2))}
+            Xf(Mag(1, 1), FALSE, Rot270, U(2, 2)),
+            \* reflection together with a magnification and no / half-turn rotation
+            Xf(Mag(2, 1), TRUE, Rot0, U(0, 1)), Xf(Mag(1, 2), TRUE, Rot180, U(1, 0))}
 PlaceOps == {o \in PathOps : o.op = "transform"} \cup {Xf(Mag(1, 1), TRUE, Rot345n, U(-1, 2))}
 
 Budget(ops) == 50 % DenOf(ops, Len(ops)) = 0
